@@ -13,7 +13,7 @@ VERIF = os.path.dirname(os.path.dirname(os.path.abspath(__file__)))
 REPO = os.environ.get("VERIF_REPO", "/repo")
 SPEC = os.path.join(VERIF, "spec")
 HARNESS = os.path.join(VERIF, "harness")
-EVID = os.path.join(VERIF, "evidence")
+EVID = os.environ.get("VERIF_EVIDENCE_DIR") or os.path.join(VERIF, "evidence")
 WORKERS = int(os.environ.get("VERIF_WORKERS", "0")) or min(16, os.cpu_count() or 4)
 
 GOENV = dict(os.environ, GOFLAGS="-mod=mod", GOPROXY="off", GOSUMDB="off", GOTOOLCHAIN="local")
@@ -157,12 +157,14 @@ def cfg_set(xs):
 
 # --------------------------------------------------------------------------- generation, execution, validation
 
-def catalogue(work, vh, name, contents, algs, seed, cfg=None, ntags=3, nrepos=2):
+def catalogue(work, vh, name, contents, algs, seed, cfg=None, ntags=3, nrepos=2, reconf=None):
     out = work.path("cat-%s.json" % name)
     cmd = [vh, "catalogue", "-contents", ",".join(contents), "-algs", ",".join(algs), "-seed", str(seed), "-o", out,
            "-ntags", str(ntags), "-nrepos", str(nrepos)]
     if cfg:
         cmd += ["-cfg", json.dumps(cfg)]
+    if reconf:
+        cmd += ["-reconf", json.dumps(reconf)]
     run(cmd, timeout=60)
     return out
 
@@ -203,7 +205,7 @@ def execute(work, vh, name, programs, stores, obs, seed, timeout=900):
     tf = work.path("trace-%s.ndjson" % name)
     write_programs(pf, programs)
     rc, out, dt = run([vh, "run", "-programs", pf, "-o", tf, "-stores", ",".join(stores), "-obs", ",".join(obs),
-                       "-seed", str(seed)], timeout=timeout, check=False, env=dict(os.environ, TMPDIR=work.sub("roots")))
+                       "-seed", str(seed), "-repo", REPO], timeout=timeout, check=False, env=dict(os.environ, TMPDIR=work.sub("roots")))
     if rc != 0:
         raise Inconclusive("harness run failed (%d):\n%s" % (rc, out[-3000:]))
     m = re.search(r"(\d+) programs, (\d+) events", out)
